@@ -24,7 +24,7 @@ FULL["ops"].append("rm_par_all")
 # structural operations only: deeper histories for the same budget
 STRUCT = dict(FULL, ops=["mk_group", "add_data", "pg_add", "pg_rm", "move", "copy", "rm_ws", "rm_par", "reopen", "gc"],
               dkinds=("fv",), classes=("Points",), pgs=("P",), caps={"groups": 3, "objects": 3, "data_per_object": 3, "entities": 14},
-              copy_data=False, pg_foreign=False, retype=False)
+              copy_data=False, pg_foreign=False, retype=False, defer=False)
 # edits only: assignments interleaved with re-open / GC
 EDIT = dict(FULL, ops=["rename", "flag", "values", "vertices", "meta", "pg_add", "pg_rm", "pg_del", "move", "reopen", "gc"], ws2=False,
             move_data=False, flags=("allow_delete", "allow_move", "allow_rename", "partially_hidden", "public", "visible"))
@@ -40,7 +40,10 @@ IDS = dict(FULL, ops=["mk_group", "mk_obj", "add_data", "pg_add", "copy", "rm_ws
 # operations explored under the most aggressive GC schedule (collection at every function
 # entry / exit inside the library during the last operation) - no copy / re-open (cost)
 GCOPS = dict(FULL, ops=["rename", "values", "pg_add", "pg_rm", "pg_del", "move", "rm_ws", "rm_par"], ws2=False, move_data=True)
-ALPHAS = {"FULL": FULL, "STRUCT": STRUCT, "EDIT": EDIT, "DEL": DEL, "DELCORE": DELCORE, "IDS": IDS, "GCOPS": GCOPS}
+# FULL without deferred creation: an entity created with save_on_creation=False reaches the
+# file during some LATER operation, which legitimately widens that operation's footprint (C09)
+FULLND = dict(FULL, defer=False)
+ALPHAS = {"FULLND": FULLND, "FULL": FULL, "STRUCT": STRUCT, "EDIT": EDIT, "DEL": DEL, "DELCORE": DELCORE, "IDS": IDS, "GCOPS": GCOPS}
 
 DROP_ASC = {"uid_order": "asc", "policy": "drop"}
 HOLD_DESC = {"uid_order": "desc", "policy": "hold"}
